@@ -749,7 +749,8 @@ std::string opTimeout2(const std::vector<std::string>& w)
 // position across the connections.  Actions: R full request + read the response, P partial request, C close, H half-close (shutdown
 // WR, read to EOF, close), X reset (SO_LINGER 0), T silence for hdr + 1300 ms (then read what the server sent), W wait 50 ms,
 // A abort: partial request + close while the worker is busy with another connection, B request an 8 MB answer and do not read it
-// (the connection then has a blocked, non-empty write queue when it is closed or reset)
+// (the connection then has a blocked, non-empty write queue when it is closed or reset), Z the same but silent until the idle
+// time-out fired (408 queued behind the blocked answer), then everything is read up to the server's close
 std::string opLife(const std::vector<std::string>& w)
 {
     if (w.size() != 4) return "bad-op";
@@ -766,8 +767,16 @@ std::string opLife(const std::vector<std::string>& w)
     int base = countFds();
     struct Conn { int fd = -1; int lport = 0; std::string seen; bool open = false; };
     std::vector<Conn> cs(scripts.size());
-    for (auto& k : cs) {
-        k.fd = connectTo(port); if (k.fd < 0) return "connect-failed";
+    for (size_t ci = 0; ci < cs.size(); ++ci) {
+        Conn& k = cs[ci];
+        if (scripts[ci].find_first_of("BZ") != std::string::npos) {
+            // a connection that will stop reading gets its tiny receive buffer BEFORE it connects (the window is negotiated then)
+            k.fd = ::socket(AF_INET, SOCK_STREAM, 0); int rcv = 4096; ::setsockopt(k.fd, SOL_SOCKET, SO_RCVBUF, &rcv, sizeof rcv);
+            sockaddr_in sa {}; sa.sin_family = AF_INET; sa.sin_port = htons(port); sa.sin_addr.s_addr = htonl(INADDR_LOOPBACK);
+            if (::connect(k.fd, reinterpret_cast<sockaddr*>(&sa), sizeof sa) != 0) { ::close(k.fd); k.fd = -1; }
+        } else
+        k.fd = connectTo(port);
+        if (k.fd < 0) return "connect-failed";
         sockaddr_in a {}; socklen_t l = sizeof a; ::getsockname(k.fd, reinterpret_cast<sockaddr*>(&a), &l); k.lport = ntohs(a.sin_port); k.open = true;
     }
     size_t maxlen = 0; for (auto& sct : scripts) maxlen = std::max(maxlen, sct.size());
@@ -788,8 +797,25 @@ std::string opLife(const std::vector<std::string>& w)
             }
             else if (a == 'B') {
                 // ask for 8 MB and do not read: the server's write blocks, the connection keeps a non-empty write queue
-                int rcv = 4096; ::setsockopt(k.fd, SOL_SOCKET, SO_RCVBUF, &rcv, sizeof rcv);
                 sendAll(k.fd, "GET /big8192 HTTP/1.1\r\nHost: h\r\n\r\n"); std::this_thread::sleep_for(std::chrono::milliseconds(120));
+            }
+            else if (a == 'Z') {
+                // ask for 8 MB, read nothing until the idle time-out has fired more than once (the 408 is queued behind the blocked
+                // answer), then read everything: the answer, then the 408, then the server's close
+                sendAll(k.fd, "GET /big8192 HTTP/1.1\r\nHost: h\r\n\r\n");
+                std::this_thread::sleep_for(std::chrono::milliseconds(c.hdrMs + 1300));
+                std::string all; std::vector<char> tmp(1 << 20); bool cl = false;
+                for (;;) {
+                    pollfd p { k.fd, POLLIN, 0 };
+                    if (::poll(&p, 1, 1500) <= 0) break;
+                    ssize_t n = ::recv(k.fd, tmp.data(), tmp.size(), 0); if (n <= 0) { cl = true; break; }
+                    all.append(tmp.data(), static_cast<size_t>(n));
+                }
+                size_t he = all.find("\r\n\r\n"); size_t bodyEnd = he == std::string::npos ? all.size() : he + 4 + 8192u * 1024u;
+                int second = bodyEnd < all.size() ? statusOf(all.substr(bodyEnd)) : 0;
+                if (getenv("LIFE_DEBUG")) fprintf(stderr, "Z: got %zu bytes, head ends at %zu, bodyEnd %zu, closed %d, tail=[%s]\n", all.size(), he, bodyEnd, (int)cl, all.size() > 60 ? all.substr(all.size() - 60).c_str() : all.c_str());
+                k.seen += std::to_string(statusOf(all)) + "+" + std::to_string(second) + (cl ? "!" : "") + ";";
+                if (cl) { ::close(k.fd); k.open = false; }
             }
             else if (a == 'C') { ::close(k.fd); k.open = false; }
             else if (a == 'H') { ::shutdown(k.fd, SHUT_WR); bool cl; readResponse(k.fd, 300, &cl, false); ::close(k.fd); k.open = false; }
@@ -1059,13 +1085,17 @@ struct ScriptedServer {
     }
 };
 
-// cl <threads> <maxconn> <settleMs> <behaviours: I|D<ms>|B|K|X|N, each optionally :t<ms> = client time-out, comma separated>
+// cl <threads> <maxconn> <settleMs> <behaviours: I|D<ms>|B|K|X|N, each optionally :t<ms> = client time-out, comma separated;
+//    a token "/" = the requests after it are issued only when all earlier ones are settled (batches)>
 std::string opClient(const std::vector<std::string>& w)
 {
     if (w.size() != 5) return "bad-op";
     int threads = atoi(w[1].c_str()), maxconn = atoi(w[2].c_str()), settle = atoi(w[3].c_str());
-    std::vector<Behaviour> beh;
+    std::vector<Behaviour> beh; std::vector<bool> breakBefore;     // "/" = the following requests are issued only after all earlier ones are settled
+    bool pendingBreak = false;
     for (auto& t : split(w[4], ',')) {
+        if (t == "/") { pendingBreak = true; continue; }
+        breakBefore.push_back(pendingBreak); pendingBreak = false;
         Behaviour b; b.kind = t[0]; size_t c = t.find(":t");
         if (t.size() > 1 && isdigit(static_cast<unsigned char>(t[1]))) b.ms = atoi(t.c_str() + 1);
         if (c != std::string::npos) b.timeoutMs = atoi(t.c_str() + c + 2);
@@ -1077,7 +1107,18 @@ std::string opClient(const std::vector<std::string>& w)
     struct Res { std::mutex m; std::vector<std::string> out; std::vector<int> count; } res;
     res.out.assign(beh.size(), "pending"); res.count.assign(beh.size(), 0);
     std::vector<Async::Promise<Http::Response>> keep;
+    auto waitSettled = [&](size_t upto) {
+        auto t0 = std::chrono::steady_clock::now();
+        for (;;) {
+            bool all = true; { std::lock_guard<std::mutex> g(res.m); for (size_t k = 0; k < upto; ++k) if (res.out[k] == "pending") all = false; }
+            if (all) break;
+            if (std::chrono::steady_clock::now() - t0 > std::chrono::milliseconds(settle)) break;
+            std::this_thread::sleep_for(std::chrono::milliseconds(5));
+        }
+        std::this_thread::sleep_for(std::chrono::milliseconds(30));
+    };
     for (size_t i = 0; i < beh.size(); ++i) {
+        if (breakBefore[i]) waitSettled(i);
         auto rb = client.get("http://127.0.0.1:" + std::to_string(srv.port) + "/r" + std::to_string(i));
         if (beh[i].timeoutMs > 0) rb.timeout(std::chrono::milliseconds(beh[i].timeoutMs));
         auto p = rb.send();
